@@ -887,6 +887,19 @@ func (w *qWorld) checkStats() {
 	// RDY <= count it is never sent anything again)
 	for _, t := range doc.Topics {
 		for _, c := range t.Channels {
+			// at quiescence nothing waits in a channel's queue while one of its consumers is able to receive
+			// (subscribed, RDY above its in-flight count, channel not paused): a delivery pump that was not
+			// woken after the event that made its consumer ready again leaves exactly this picture
+			if !w.cfg.Topology && !c.Paused && c.Depth > 0 {
+				for _, cl := range c.Clients {
+					if cl.State == 3 && cl.ReadyCount > 0 && cl.InFlightCount < cl.ReadyCount {
+						for _, prop := range []string{"C03", "C08", "C13"} {
+							w.violate(prop, "ready-consumer-not-served", "channel %s/%s holds %d queued messages at a quiescent moment although %s is subscribed with RDY %d and %d in flight", t.TopicName, c.ChannelName, c.Depth, cl.ClientID, cl.ReadyCount, cl.InFlightCount)
+						}
+					}
+				}
+				w.rc.Probe("queue_vs_ready_consumers_checked")
+			}
 			sum := int64(0)
 			for _, cl := range c.Clients {
 				sum += cl.InFlightCount
